@@ -406,6 +406,8 @@ def build_air(src, dst, mode, pre=None):
         w.fault = LoseAfter(int(mode[7:]))
     if mode == "nack":
         d.ghost = H.mk_ghost_tx(w, "G")  # will answer with the NETWORK_ACK the origin waits for
+    if pre == "rxafter":
+        d.ghost2 = H.mk_ghost_tx(w, "G2")  # delivers an unrelated frame to the node after its write() returned
     w.advance(1 * MS)
     return (w, node, r, L, d), addr
 
@@ -538,6 +540,20 @@ def air_case(pack, addr, case, seed):
             v("result:%s" % mode, "write returned %r although the next hop did not acknowledge" % (result,))
     if hdr.message_type != typ:
         v("type-restored:%s" % (mode + ("+network-ack" if nack_mode else "")), "caller's header shows type %r after sending type %d" % (hdr.message_type, typ))
+    if case.get("pre") == "rxafter" and not viol:
+        # the application keeps its header / frame; the node then receives an unrelated frame (update()): what the caller holds
+        # must still be what it sent (type, destination, id; the message)
+        import struct as _st2
+        other = _st2.pack("<HHHBB", 0o5 if src != 0o5 else 0o4, src, (fid0 + 77) & 0xFFFF, 9, 3) + b"unrelated"
+        if not H.inject(w, d.ghost2, H.net_pipe_address(src, 2, multicast=False), other):
+            raise HarnessError("unrelated frame not received by the node")
+        node.update()
+        now_ = (hdr.to_node, hdr.message_type, hdr.frame_id & 0xFFFF)
+        if now_ != (dst, typ, hid0):
+            v("caller-header-overwritten:after-update", "after a later update() that received another frame the caller's header reads to=%o type=%r id=%d, it was sent as to=%o type=%d id=%d" % (
+                now_[0], now_[1], now_[2], dst, typ, hid0))
+        if bytes(after_msg) != raw or bytes(msg) != raw:
+            v("message-modified:after-update", "caller's message changed when the node received another frame")
     if bytes(after_msg) != raw or bytes(msg) != raw:
         v("message-modified:%s" % mode, "caller's message changed")
     outcome = "air:%s:%s:frames=%d:%s" % (mode, shape, len(seq), "T" if result else "F")
@@ -609,6 +625,11 @@ def air_items(tier, seed):
         cases = [(typ, n, "send" if (res + n) % 2 else "write", res) for res in range(256) for typ, n in ((1, 0), (1, 5), (127, 24), (65, 25), (1, 49))]
         for i in range(0, len(cases), 160):
             items.append((src, dst, "sent", cases[i:i + 160], seed))
+    # the node receives an unrelated frame after the write returned: the caller's header and message are still the caller's
+    for src, dst in ((0o1, 0), (0o1, 0o2), (0o23, 0o4123)):
+        cases = [(typ, n, "send" if (typ + n) % 2 else "write") for typ in (0, 1, 64, 65, 127, 192, 255) for n in (0, 5, 24, 25, 60)
+                 if not (64 < typ < 192 and next_hop_pipe(src, dst)[0] != dst)]
+        items.append((src, dst, "sent+rxafter", cases, seed))
     # after an earlier write (single frame / first fragment of a longer message) to an absent node failed completely
     for src, dst in ((0o1, 0), (0o1, 0o2), (0, 0o3), (0o23, 0o4123)):
         for pre in ("failfirst", "failfirstfrag"):
